@@ -1,1 +1,49 @@
-From Morph Require Import Base.UStr.
+(* C12 — a mapping document means the union of its triples maps.  Statements only (engine level: rule tables).
+   Partial in one respect, stated in the names: RDF-star-free rules (the quoted fragment is covered by the correspondence
+   check and by C13). *)
+From Coq Require Import String.
+From Morph Require Import Base.UStr Gen.Tables Model.Terms Model.Data Model.Engine Proofs.UnionP.
+Local Open Scope N_scope.
+
+(* the statements of a rule depend on the rest of the rule table only through the parent rule it names *)
+Theorem rule_depends_only_on_its_references_partial : forall cfg fe get_data rules rules' rl,
+  star_free rl = true ->
+  (mkind_eqb (r_ok rl) KParent = true -> find_rule rules (r_ov rl) = find_rule rules' (r_ov rl)) ->
+  (forall p, mkind_eqb (r_ok rl) KParent = true -> find_rule rules (r_ov rl) = Some p -> mkind_eqb (r_sk p) KQuoted = false) ->
+  rule_triples cfg fe rules get_data rl = rule_triples cfg fe rules' get_data rl.
+Proof. exact rule_triples_indep. Qed.
+Print Assumptions rule_depends_only_on_its_references_partial.
+
+(* the result over a rule table made of two reference-closed parts is the union of the results of the parts, and it
+   fails iff one of the parts fails -- whatever the order and the number of rules *)
+Theorem document_is_union_of_parts_partial : forall cfg fe get_data R1 R2,
+  NoDup (map r_id (R1 ++ R2)) -> closed R1 -> closed R2 ->
+  match materialize_rules cfg fe R1 get_data, materialize_rules cfg fe R2 get_data with
+  | Ok l1, Ok l2 => exists l, materialize_rules cfg fe (R1 ++ R2) get_data = Ok l /\ forall x, In x l <-> In x l1 \/ In x l2
+  | _, _ => exists e, materialize_rules cfg fe (R1 ++ R2) get_data = Err e
+  end.
+Proof. exact union_of_parts. Qed.
+Print Assumptions document_is_union_of_parts_partial.
+
+(* the renumbering of rules and the rewriting of parent references (_normalize_rml_star) do not change any rule's
+   statements: identifiers are only names *)
+Theorem rule_numbering_is_irrelevant_partial : forall cfg fe get_data rho rules rl,
+  closed rules -> In rl rules -> (forall a b, In a (map r_id rules) -> In b (map r_id rules) -> rho a = rho b -> a = b) ->
+  rule_triples cfg fe (map (rename rho) rules) get_data (rename rho rl) = rule_triples cfg fe rules get_data rl.
+Proof. exact renaming_invariant. Qed.
+Print Assumptions rule_numbering_is_irrelevant_partial.
+
+(* non-vacuity: a closed part holding a referencing rule and its parent *)
+Definition ex_r (id : string) (ok : mkind) (ov : string) : rule :=
+  {| r_id := u id; r_tm := u id; r_src := u "S"; r_asserted := true; r_sk := KTempl; r_sv := u "http://e/{id}"; r_stt := TIri;
+     r_pk := KConst; r_pv := u "http://e/p"; r_ok := ok; r_ov := u ov; r_ott := TIri; r_ld := LDNone; r_ldk := KNone; r_ldv := [];
+     r_gk := KNone; r_gv := []; r_sjoin := []; r_ojoin := match ok with KParent => [(u "k", u "k")] | _ => [] end |}.
+Example closed_example : closed [ex_r "1" KParent "2"; ex_r "2" KRef "name"] /\ closed [ex_r "3" KTempl "http://e/o/{x}"] /\
+  NoDup (map r_id ([ex_r "1" KParent "2"; ex_r "2" KRef "name"] ++ [ex_r "3" KTempl "http://e/o/{x}"])).
+Proof.
+  split; [|split].
+  - intros rl [<-|[<-|[]]]; split; try reflexivity; try discriminate. intros _. eexists. split; reflexivity.
+  - intros rl [<-|[]]; split; try reflexivity; discriminate.
+  - repeat constructor; simpl; intuition discriminate.
+Qed.
+Print Assumptions closed_example.
